@@ -157,7 +157,7 @@ class C13(Scenario):
                             ["call", out, "operator.neg", [A]],
                         ]
                     )
-                    add(n, op)
+                    add(n, op if rng.random() < 0.4 else ["noop", None, a])
                     # its result is not tracked: only what it does to the pool matters; the
                     # expressions that contain the operand must still round-trip
                     if rng.random() < 0.6:
